@@ -82,6 +82,7 @@ func _newSubordinateEnvWithBinds(outer *Env, binds_mt types.MalType, exprs_mt ty
 func (e *Env) Find(key types.Symbol) types.EnvType {
 	e.mu.RLock()
 	defer e.mu.RUnlock()
+	verifEnvOp("find", e, key.Val)
 
 	return e.FindNT(key)
 }
@@ -89,6 +90,7 @@ func (e *Env) Find(key types.Symbol) types.EnvType {
 func (e *Env) Set(key types.Symbol, value types.MalType) types.MalType {
 	e.mu.Lock()
 	defer e.mu.Unlock()
+	verifEnvOp("set", e, key.Val)
 
 	return e.SetNT(key, value)
 }
@@ -96,6 +98,7 @@ func (e *Env) Set(key types.Symbol, value types.MalType) types.MalType {
 func (e *Env) Remove(key types.Symbol) error {
 	e.mu.Lock()
 	defer e.mu.Unlock()
+	verifEnvOp("remove", e, key.Val)
 
 	return e.RemoveNT(key)
 }
@@ -103,6 +106,7 @@ func (e *Env) Remove(key types.Symbol) error {
 func (e *Env) Get(key types.Symbol) (types.MalType, error) {
 	e.mu.RLock()
 	defer e.mu.RUnlock()
+	verifEnvOp("get", e, key.Val)
 
 	return e.GetNT(key)
 }
@@ -110,6 +114,7 @@ func (e *Env) Get(key types.Symbol) (types.MalType, error) {
 func (e *Env) Update(key types.Symbol, f func(types.MalType) (types.MalType, error)) (types.MalType, error) {
 	e.mu.Lock()
 	defer e.mu.Unlock()
+	verifEnvOp("update", e, key.Val)
 
 	v, _ := e.GetNT(key)
 	newV, err := f(v)
